@@ -39,13 +39,20 @@ def search(tier, seed):
             total += 1
             if verdict != "SAME" or not res.startswith("OK"):
                 return total, "corpus case %s: %s / %s" % (C.show_input(h), res[:200], verdict[:600]), samples, kinds
-    for stream, cnt in (("parsed", n), ("generated", n // 2), ("deep", 0)):
-        rows = owned_stream(stream, seed, cnt)
+    sents = C.grammar_sentences()
+    for stream, cnt in (("parsed", n), ("generated", n // 2), ("deep", 0), ("grammar", 0)):
+        if stream == "grammar":
+            # responses read off the translated grammar (every alternative of every rule the code has now)
+            if not sents:
+                continue
+            rows = owned_stream("corpus", seed, 0, stdin="\n".join(sents) + "\n")
+        else:
+            rows = owned_stream(stream, seed, cnt)
         for h, res, verdict in rows:
             total += 1
             k = res.split(" ", 3)[2][:24] if res.startswith("OK") else res
             kinds[k] = kinds.get(k, 0) + 1
-            if stream == "deep" and not res.startswith("OK"):
+            if stream in ("deep", "grammar") and not res.startswith("OK"):
                 continue        # nesting beyond the parser's bound: refused, nothing to own
             if not res.startswith("OK"):
                 return total, "a generated response does not parse (%s): %s" % (res, C.show_input(h)), samples, kinds
